@@ -70,7 +70,7 @@ def run(ctx):
 
     rng = random.Random(ctx.seed + 20)
     sysf = reconsim.systematic()
-    cases = sysf[:8] + rng.sample(sysf[8:], 300 if ctx.quick else 3000) + [reconsim.random_story(rng, rng.randrange(2, 14)) for _ in range(300 if ctx.quick else 5000)]
+    cases = sysf[:8] + rng.sample(sysf[8:], min(len(sysf) - 8, 300 if ctx.quick else 3000)) + [reconsim.random_story(rng, rng.randrange(2, 14)) for _ in range(300 if ctx.quick else 5000)]
     res = c18.run_family(ctx, "manager_zeroconf", cases)
     ctx.evaluations += res["n"]
     ctx.distinct |= {("manager_zeroconf", i) for i in range(res["n"])}
